@@ -56,7 +56,7 @@ struct Totals {
     uint64_t pairsWW = 0, pairsWR = 0, pairsRW = 0, pairsLive = 0, maxQueue = 0;
     uint64_t idleProbes = 0, readerParksJudged = 0, readersNoWriter = 0, rendezvous = 0, rendezvousReaders = 0;
     uint64_t predictedParks = 0, predictedFast = 0, lateArrivalPatterns = 0, lateArrivals = 0;
-    std::atomic<uint64_t> nestedSections{0};
+    std::atomic<uint64_t> nestedSections{0}, nestedSameResource{0};
     std::vector<uint64_t> fps;          // fingerprints of non-trivial cases
     std::vector<std::string> samples;
 } T;
@@ -341,7 +341,18 @@ void runStress(uint64_t caseIdx, rt::Rng rng) {
             while (!g.go.load(std::memory_order_acquire)) sched_yield();
             for (int k = 0; k < perThread; ++k) {
                 uint8_t type = r.chance(wp) ? W : R;
-                section(type, (uint8_t) r.below(2), h[t][k], "stress", [&] { dwell(r, dwellUs); }, r.chance(100));
+                section(type, (uint8_t) r.below(2), h[t][k], "stress", [&] {
+                    dwell(r, dwellUs);
+                    // writer-free runs: the same thread takes the read lock again while it holds it (ResourceTest::SimultaneousRead
+                    // does that on one thread); with no writer anywhere this must never wait
+                    if (wp == 0 && r.chance(150)) {
+                        spy::ThreadRec *me = spy::self();
+                        uint64_t before = me->watchedParks;
+                        if (r.chance(500)) { g.res->lockRead(); g.res->unlockRead(); } else { ReadLock again{*g.res}; }
+                        if (me->watchedParks != before) rt::violation("C12", "reader-parked-without-writer", "stress", "a nested read lock of the same thread had to wait in a writer-free run");
+                        T.nestedSameResource.fetch_add(1, std::memory_order_relaxed);
+                    }
+                }, r.chance(100));
                 if (r.chance(200)) dwell(r, dwellUs);
                 spy::noteProgress();
             }
@@ -604,7 +615,7 @@ int main(int argc, char **argv) {
                    .kv("readersNoWriter", T.readersNoWriter).kv("readerParksJudged", T.readerParksJudged)
                    .kv("rendezvous", T.rendezvous).kv("rendezvousReaders", T.rendezvousReaders)
                    .kv("predictedParks", T.predictedParks).kv("predictedFast", T.predictedFast)
-                   .kv("lateArrivalPatterns", T.lateArrivalPatterns).kv("lateArrivals", T.lateArrivals).kv("sectionsNestedInOtherResource", T.nestedSections.load())
+                   .kv("lateArrivalPatterns", T.lateArrivalPatterns).kv("lateArrivals", T.lateArrivals).kv("sectionsNestedInOtherResource", T.nestedSections.load()).kv("recursiveReadLocks", T.nestedSameResource.load())
                    .kv("nontrivial", (uint64_t) T.fps.size())
                    .kv("delaysAfterWake", k.afterWake.load()).kv("delaysCondEntry", k.condEntry.load())
                    .kv("delaysOther", k.beforeLock.load() + k.afterUnlock.load() + k.beforeNotify.load() + k.threadStart.load())
